@@ -85,6 +85,23 @@ Theorem C03_per_well_cost : forall (simple : bool) (coef : Q * Q * Q) (d per_m a
 Proof. exact one_vertical_well_cases. Qed.
 Print Assumptions C03_per_well_cost.
 
+(* district-heating network: a supplied total is used verbatim, otherwise rate x length / 1000 with the documented
+   precedence of piping length, 75 % of road length, population density *)
+Theorem C03_district_network : forall d : dh_in,
+  (d_total_provided d = true -> dh_network_cost d = d_total d) /\
+  (d_total_provided d = false -> d_piping_provided d = true -> dh_network_cost d == d_rate d * d_piping_len d / 1000) /\
+  (d_total_provided d = false -> d_piping_provided d = false -> d_road_provided d = true ->
+     dh_network_cost d == d_rate d * ((75 # 100) * d_road_len d) / 1000) /\
+  (d_total_provided d = false -> d_piping_provided d = false -> d_road_provided d = false ->
+     dh_network_cost d == d_rate d * dh_length_from_density d / 1000).
+Proof. exact dh_cost_cases. Qed.
+Print Assumptions C03_district_network.
+
+Theorem C03_district_length_bounds : forall d : dh_in, 0 <= d_area d -> 0 <= dh_density d ->
+  d_area d <= dh_length_from_density d /\ dh_length_from_density d <= (75 # 10) * d_area d.
+Proof. exact dh_length_bounds. Qed.
+Print Assumptions C03_district_length_bounds.
+
 (* ---- non-vacuity: a run with ITC, grant and redrilling ---- *)
 Definition exk : cost_in :=
   {| k_ppwc_valid := false; k_ppwc := 0; k_piwc_provided := false; k_piwc := 0; k_nprod := 2; k_ninj := 1;
